@@ -11,15 +11,15 @@ LMAX = {"quick": 3, "thorough": 5}
 SHARDS = {"quick": 8, "thorough": 14}
 NDOC = {"quick": 300, "thorough": 15000}
 EXHAUSTIVE = {"quick": True, "thorough": True}
-RULE = ("EXHAUSTIVE over all sequences of length <= L (L=3 quick, 5 thorough) over the 20-kind alphabet of "
+RULE = ("EXHAUSTIVE over all sequences of length <= L (L=3 quick, 5 thorough) over the 21-kind alphabet of "
         "C06, every prefix of each re-resolved with the real resolve_citations and compared with the "
         "restriction of the full resolution (resources by == and hash, members by identity and order); plus "
-        "random sequences of length 4..9 over 34 kinds and all prefixes of lists extracted from generated "
+        "random sequences of length 4..9 over 41 kinds and all prefixes of lists extracted from generated "
         "documents; also: no non-full citation grouped under a resource whose first full member occurs later; "
         "non-trivial = (list, cut) pair with a non-empty prefix; distinct = distinct kind sequence / document")
 ASSUMPTIONS = ["exhaustive for the stated alphabet and bound only"]
-FLOORS = {"quick": {"sequences": 8420, "prefix_pairs": 20000, "extracted_lists": 400},
-          "thorough": {"sequences": 3368420, "prefix_pairs": 15000000, "extracted_lists": 20000}}
+FLOORS = {"quick": {"sequences": R.n_sequences(3), "prefix_pairs": 20000, "extracted_lists": 400},
+          "thorough": {"sequences": R.n_sequences(5), "prefix_pairs": 15000000, "extracted_lists": 20000}}
 
 
 def plan(tier, seed):
